@@ -49,6 +49,19 @@ def gen(tier, rng):
         vs = " ".join(map(str, vals))
         for pn in range(0, 101):
             lines.append(f"agg percentile {pn} 1 {vs}")
+    # `mean` over columns of NARROW numeric types whose elements fit the type while their sum does not (u8 200+100+150, i32 3 x 2^30, ...): the mean is defined on the
+    # values (each converted to f64), not on a sum in the column's type
+    BOUNDS = {"u8": (0, 255), "i8": (-128, 127), "u16": (0, 65535), "i16": (-32768, 32767), "u32": (0, 2 ** 32 - 1), "i32": (-2 ** 31, 2 ** 31 - 1)}
+    for ty, (lo, hi) in BOUNDS.items():
+        for k in range(6 if tier == "quick" else 40):
+            g = rng.fork(f"meant{ty}{k}")
+            n = g.choice([2, 3, 4, 8, 17])
+            vals = [g.choice([hi, hi - 1, hi - g.below(50), lo, lo + g.below(50), g.range(lo, hi), hi // 2 + g.below(40)]) for _ in range(n)]
+            if k == 0: vals = [hi, hi, hi]
+            if k == 1 and lo < 0: vals = [lo, lo, lo, lo]
+            lines.append(f"agg mean_t {ty} " + " ".join(map(str, vals)))
+    lines.append("agg mean " + " ".join(["1073741824"] * 3))
+    lines.append("agg mean " + " ".join(["-1073741824"] * 5 + ["7"]))
     # ONE aggregator value applied to several groups in turn (the generated code builds `percentile(p)` per evaluation of the aggregation
     # clause's enclosing bindings and a user may hold one closure for many groups): the result for a group depends on that group alone
     for k in range(40 if tier == "quick" else 400):
@@ -83,6 +96,8 @@ def oracle(line, out):
     op, args = t[1], t[2:]
     if out == "panic":
         return "panics (aggregators must be total)"
+    if op == "mean_t":
+        op, args = "mean", args[1:]
     if op in ("min", "max", "sum", "mean"):
         l = [int(x) for x in args]
         if op == "sum":
